@@ -28,6 +28,25 @@ pub struct Script {
     /// a source that reports end-of-input once at this offset (empty `fill_buf`) and then goes on
     /// delivering the rest (a file that is appended to, a socket): `Eof` must stay final for the reader
     pub eof_once_at: Option<usize>,
+    /// what the *consumer* does with the buffer it hands to `read_event_into*` (kept here because the
+    /// script travels into every run and every replay file): 0 = cleared before every call; 1 = never
+    /// cleared (events accumulate, legal: clearing only saves memory); k >= 2 = reset to `USER_BUF_JUNK[k-2]`
+    /// before every call (bytes of an earlier, unrelated use that look like the first half of a terminator)
+    pub user_buf: u8,
+}
+
+pub const USER_BUF_JUNK: [&[u8]; 9] = [b"-", b"--", b"]", b"]]", b"?", b"<!--", b"<![CDATA[", b"\"", b"<"];
+
+/// Applies the consumer's buffer policy before a call.
+pub fn prepare_user_buf(policy: u8, buf: &mut Vec<u8>) {
+    match policy {
+        0 => buf.clear(),
+        1 => {}
+        k => {
+            buf.clear();
+            buf.extend_from_slice(USER_BUF_JUNK[(k as usize - 2) % USER_BUF_JUNK.len()]);
+        }
+    }
 }
 
 impl Script {
@@ -50,6 +69,7 @@ impl Script {
             "piece": self.piece,
             "faults": self.faults.iter().map(|(i, f)| serde_json::json!([i, format!("{:?}", f)])).collect::<Vec<_>>(),
             "eof_once_at": self.eof_once_at,
+            "user_buf": self.user_buf,
         })
     }
     pub fn from_json(v: &serde_json::Value) -> Script {
@@ -76,7 +96,7 @@ impl Script {
                     .collect()
             })
             .unwrap_or_default();
-        Script { cuts, piece, faults, eof_once_at: v["eof_once_at"].as_u64().map(|x| x as usize) }
+        Script { cuts, piece, faults, eof_once_at: v["eof_once_at"].as_u64().map(|x| x as usize), user_buf: v["user_buf"].as_u64().unwrap_or(0) as u8 }
     }
 }
 
